@@ -22,9 +22,9 @@ fn nm(b: bool) -> &'static str {
 /// One selection: a field, or an inline fragment holding that field (solver-chosen); field name
 /// and looked-up name solver-chosen from {a, b}. `filter(name)` returns exactly the field iff
 /// the names agree (CollectFields looks through inline fragments).
-pub fn lookahead_one<S: Src>(s: &mut S) {
+fn lookahead_one<S: Src, const WRAP: bool>(s: &mut S) {
     let n0 = s.bool();
-    let wrap = s.bool();
+    let wrap = WRAP;
     let want_name = s.bool();
     let f0 = field(nm(n0), Some("x0"), Vec::new(), Vec::new());
     let items = vec![if wrap { inline(vec![f0]) } else { f0 }];
@@ -33,7 +33,7 @@ pub fn lookahead_one<S: Src>(s: &mut S) {
     let mut out: Vec<&Field> = Vec::new();
     filter(&mut out, &frags, &set, nm(want_name));
     let want = (n0 == want_name) as usize;
-    cover!(want == 1 && wrap, "match through an inline fragment");
+    cover!(want == 1, "match");
     cover!(want == 0, "no match");
     assert!(out.len() == want, "number of fields reported");
     if want == 1 {
@@ -42,6 +42,9 @@ pub fn lookahead_one<S: Src>(s: &mut S) {
     }
     std::mem::forget(out);
 }
+
+pub fn lookahead_one_field<S: Src>(s: &mut S) { lookahead_one::<S, false>(s) }
+pub fn lookahead_one_inline<S: Src>(s: &mut S) { lookahead_one::<S, true>(s) }
 
 /// Two sibling fields (names solver-chosen): both, one or none are reported, in document order.
 pub fn lookahead_siblings<S: Src>(s: &mut S) {
@@ -72,10 +75,10 @@ pub fn lookahead_siblings<S: Src>(s: &mut S) {
 /// A spread of the (only) fragment F, or of an unknown fragment, written directly or inside
 /// an inline fragment (solver-chosen): the fragment's field is reported iff the fragment is
 /// known and the names agree (CollectFields follows spreads at any nesting of inline fragments).
-pub fn lookahead_spread<S: Src>(s: &mut S) {
+fn lookahead_spread<S: Src, const WRAP: bool, const KNOWN: bool>(s: &mut S) {
     let n1 = s.bool();
-    let known = s.bool();
-    let wrap = s.bool();
+    let known = KNOWN;
+    let wrap = WRAP;
     let want_name = s.bool();
     let f1 = field(nm(n1), Some("x1"), Vec::new(), Vec::new());
     let sp = spread(if known { "F" } else { "G" });
@@ -86,15 +89,21 @@ pub fn lookahead_spread<S: Src>(s: &mut S) {
     let mut out: Vec<&Field> = Vec::new();
     filter(&mut out, &frags, &set, nm(want_name));
     let want = (known && n1 == want_name) as usize;
-    cover!(want == 1 && wrap, "field of the fragment, spread inside an inline fragment");
-    cover!(want == 1 && !wrap, "field of the fragment, direct spread");
-    cover!(!known, "spread of an unknown fragment");
+    cover!(want == 1 || !known, "field of the fragment reported");
+    cover!(want == 0, "nothing reported");
     assert!(out.len() == want, "number of fields reported");
     std::mem::forget(out);
 }
 
+pub fn lookahead_spread_direct<S: Src>(s: &mut S) { lookahead_spread::<S, false, true>(s) }
+pub fn lookahead_spread_inline<S: Src>(s: &mut S) { lookahead_spread::<S, true, true>(s) }
+pub fn lookahead_spread_unknown<S: Src>(s: &mut S) { lookahead_spread::<S, false, false>(s) }
+
 harnesses! {
-    #[kani::unwind(5)] #[kani::stub(std::hash::RandomState::new, crate::stubs::rs_new)] c22_lookahead_one => lookahead_one;
+    #[kani::unwind(5)] #[kani::stub(std::hash::RandomState::new, crate::stubs::rs_new)] c22_lookahead_one_field => lookahead_one_field;
+    #[kani::unwind(3)] #[kani::stub(std::hash::RandomState::new, crate::stubs::rs_new)] c22_lookahead_one_inline => lookahead_one_inline;
     #[kani::unwind(5)] #[kani::stub(std::hash::RandomState::new, crate::stubs::rs_new)] c22_lookahead_siblings => lookahead_siblings;
-    #[kani::unwind(5)] #[kani::stub(std::hash::RandomState::new, crate::stubs::rs_new)] c22_lookahead_spread => lookahead_spread;
+    #[kani::unwind(3)] #[kani::stub(std::hash::RandomState::new, crate::stubs::rs_new)] c22_lookahead_spread_direct => lookahead_spread_direct;
+    #[kani::unwind(3)] #[kani::stub(std::hash::RandomState::new, crate::stubs::rs_new)] c22_lookahead_spread_inline => lookahead_spread_inline;
+    #[kani::unwind(3)] #[kani::stub(std::hash::RandomState::new, crate::stubs::rs_new)] c22_lookahead_spread_unknown => lookahead_spread_unknown;
 }
